@@ -473,4 +473,37 @@ def directUpdate (comp tmpl : Str) (reg : Registry) : Update → List (Str × Pa
   | .outputStream ms => publishAll comp tmpl reg ms
   | _ => []
 
+/-! ### the register changes while the target runs
+
+`Register::update_info` (`src/ingress.rs`, `update_field!` per field): a field the call supplies
+replaces the stored one, a field it does not supply is kept; an id without an entry gets the new
+info as it is. The mqtt target reads the register when it builds a message (`ingresses.get(id)` in
+`output_stream_message_to_msg`), so the metadata attached is the register's content at that moment. -/
+
+def IngressInfo.merge (old new : IngressInfo) : IngressInfo :=
+  ⟨new.unitName.or old.unitName, new.parent.or old.parent, new.remoteAddr.or old.remoteAddr,
+   new.remoteAsn.or old.remoteAsn, new.filename.or old.filename, new.name.or old.name, new.desc.or old.desc⟩
+
+def Registry.update : Registry → Nat → IngressInfo → Registry
+  | [], id, new => [(id, new)]
+  | e :: es, id, new => if e.1 = id then (id, e.2.merge new) :: es else e :: Registry.update es id new
+
+/-- What happens around a running target: an update arrives, or a source's register entry is edited. -/
+inductive Ev
+  | upd (u : Update)
+  | info (id : Nat) (i : IngressInfo)
+  deriving DecidableEq, Repr
+
+/-- The register after a history. -/
+def regAfter : Registry → List Ev → Registry
+  | reg, [] => reg
+  | reg, .upd _ :: es => regAfter reg es
+  | reg, .info id i :: es => regAfter (reg.update id i) es
+
+/-- Everything the target queues for publishing over a history, in order. -/
+def session (comp tmpl : Str) : Registry → List Ev → List (Str × Payload)
+  | _, [] => []
+  | reg, .upd u :: es => directUpdate comp tmpl reg u ++ session comp tmpl reg es
+  | reg, .info id i :: es => session comp tmpl (reg.update id i) es
+
 end Rotonda.OutStream
